@@ -87,9 +87,13 @@ func runKV(tr *Tracer, s *Scenario) (ok bool) {
 				}
 				emit("kv_open", m)
 			case "set":
-				err := h.db.Set(ctx, tok(st.num("t", 0)), st.str("k"), fmt.Sprintf("v%d", st.num("t", 0)))
+				val := fmt.Sprintf("v%d", st.num("t", 0))
+				if st.has("val") {
+					val = st.str("val")
+				}
+				err := h.db.Set(ctx, tok(st.num("t", 0)), st.str("k"), val)
 				o, es := errOut(err)
-				emit("kv_set", map[string]interface{}{"k": st.str("k"), "t": st.num("t", 0), "val": fmt.Sprintf("v%d", st.num("t", 0)), "outcome": o, "err": es})
+				emit("kv_set", map[string]interface{}{"k": st.str("k"), "t": st.num("t", 0), "val": val, "outcome": o, "err": es})
 			case "tomb":
 				err := h.db.Tombstone(ctx, tok(st.num("t", 0)), st.str("k"))
 				o, es := errOut(err)
